@@ -202,6 +202,19 @@ SLICES = [
         "drops": "the collect() of the per-move texts (Move::pgn_notation, C20's own contract), String::new(), the loop header",
     },
     {
+        "name": "verif_display_cell",
+        "file": "chess/mod.rs",
+        "within": r"^impl std::fmt::Display for Game \{",
+        "header": "impl Game { pub(crate) fn verif_display_cell(&self, i: i8, j: i8) -> char",
+        "regions": [
+            {"start": r"^\s*let position = Position::new_assert\(i, j\);", "end": ("line",)},
+            {"start": r"^\s*self\.get_position\(position\)\s*$", "end": ("until", r"^\s*\)\?;")},
+        ],
+        "post": "}",
+        "drops": "the `write!(f, \"|{}\", ...)` call around the cell expression (core::fmt), the `for i in (0..8).rev()` / `for j in 0..8` headers, "
+                 "the rank number and the `|` / file-letter lines",
+    },
+    {
         "name": "verif_fen_board_loop",
         "file": "chess/mod.rs",
         "within": r"^\s*pub fn fen\(&self\) -> String",
@@ -330,6 +343,15 @@ SLICES = [
         "drops": "everything after the early exit",
     },
     {
+        "name": "verif_push_closure",
+        "file": "chess/mod.rs",
+        "within": r"^\s*pub fn get_moves\(",
+        "header": "impl Game { pub(crate) fn verif_push_closure(moves: &mut ArrayVec<Move, 256>, candidate: Move)",
+        "regions": [{"start": r"^\s*let mut push = \|_move\| \{", "end": ("block",)}],
+        "post": "push(candidate); }",
+        "drops": "everything of get_moves around the definition of the closure handed to the generators; the wrapper calls the closure once",
+    },
+    {
         "name": "verif_gen_body",
         "file": "chess/mod.rs",
         "within": r"^\s*pub fn get_moves\(",
@@ -367,6 +389,18 @@ SLICES = [
         "post": "}\nkeep_index }",
         "drops": "the `for index in 0..moves.len()` header, the four `let` lines before it (player, king_position, is_king_targeted, keep_index) "
                  "and moves.truncate(keep_index) after it",
+    },
+    {
+        "name": "verif_timer_block",
+        "file": "uci.rs",
+        "within": r"^fn command_go\(",
+        "header": "pub(crate) fn verif_timer_block(time: Option<Duration>, infinite: bool, depth: Option<u8>, search_is_running: &Arc<AtomicBool>)",
+        "pre": "let _ = depth;",
+        "regions": [{"start": r"^\s*if let Some\(time\) = time \{", "end": ("block",)}],
+        "post": "",
+        "drops": "everything before the `if let Some(time) = time` block (argument parsing, budget arithmetic = slice verif_budget) and the search "
+                 "thread after it; `depth` (in scope at this point of command_go, not read by the current code) is a parameter so that a change "
+                 "making the timer depend on it still compiles",
     },
     {
         "name": "verif_budget",
